@@ -357,12 +357,10 @@ def machine_shard(st, shard, nshards, payload):
                              stateful_step_count=payload['steps'])
     try:
         run_state_machine_as_test(seed(payload['seed'] * 64 + shard)(Machine), settings=sett)
-    except AssertionError:
-        if 'case' not in found:
-            raise
     except core.HarnessError:
         raise
-    except Exception as ex:
+    except BaseException as ex:
+        # AssertionError from _fail, or Hypothesis' Flaky/ExceptionGroup wrappers around it
         if 'case' not in found:
             raise core.HarnessError('machine crashed: %r' % (ex,))
     st.evaluations += totals['steps']
